@@ -6,9 +6,12 @@ package psatoken
 
 import (
 	"bytes"
+	"crypto"
 	"crypto/ecdsa"
+	"crypto/ed25519"
 	"crypto/elliptic"
 	"crypto/rand"
+	"crypto/rsa"
 	"errors"
 	"fmt"
 	"io"
@@ -73,17 +76,45 @@ func boundedTamper() (ok bool) {
 			return false
 		}
 	}
+	if hThorough() {
+		if !tamperWithKeys(sets, 48, cose.AlgorithmEd25519, func() crypto.Signer {
+			_, k, err := ed25519.GenerateKey(rand.Reader)
+			if err != nil {
+				panic(err)
+			}
+			return k
+		}) {
+			return false
+		}
+		if !tamperWithKeys(sets, 96, cose.AlgorithmPS256, func() crypto.Signer {
+			k, err := rsa.GenerateKey(rand.Reader, 2048)
+			if err != nil {
+				panic(err)
+			}
+			return k
+		}) {
+			return false
+		}
+	}
 	return true
 }
 
 func tamperWith(sets []IClaims, step int, alg cose.Algorithm, curve elliptic.Curve) bool {
-	kA, kB := hKey(curve), hKey(curve)
-	sign := func(c IClaims, k *ecdsa.PrivateKey) []byte {
+	return tamperWithKeys(sets, step, alg, func() crypto.Signer { return hKey(curve) })
+}
+
+func tamperWithKeys(sets []IClaims, step int, alg cose.Algorithm, newKey func() crypto.Signer) bool {
+	kA, kB := newKey(), newKey()
+	sign := func(c IClaims, k crypto.Signer) []byte {
 		ev := &Evidence{}
 		if err := ev.SetClaims(c); err != nil {
 			panic(err)
 		}
-		tok, err := ev.ValidateAndSign(hSigner(alg, k))
+		sg, err := cose.NewSigner(alg, k)
+		if err != nil {
+			panic(err)
+		}
+		tok, err := ev.ValidateAndSign(sg)
 		if err != nil {
 			panic(err)
 		}
@@ -285,6 +316,15 @@ func boundedHistories() (ok bool) {
 		{"sign-empty", func(e *Evidence) ([]byte, error, bool, bool) {
 			t, err := e.Sign(faultySigner{alg: cose.AlgorithmES256})
 			return t, err, true, false
+		}},
+		{"sign-unsupported-alg", func(e *Evidence) ([]byte, error, bool, bool) {
+			// a signer for an algorithm go-cose cannot verify, returning bytes that are no signature:
+			// whether or not the library refuses it, verification must not succeed afterwards
+			t, err := e.Sign(faultySigner{alg: cose.Algorithm(-65000), sig: []byte{1, 2, 3}})
+			if err == nil && e.Verify(k.Public()) == nil {
+				panic("an Evidence signed with an unsupported algorithm and a junk signature verifies")
+			}
+			return t, err, false, false
 		}},
 		{"vsign-invalid", func(e *Evidence) ([]byte, error, bool, bool) {
 			saved := e.Claims
